@@ -1719,6 +1719,22 @@ add('c13-randbetween-real-valued-draw', 'C13', 'break', [(MATH, """    return bo
 add('c13-benign-randbetween-numpy-randint', 'C13', 'benign', [(MATH, """    return bottom + int(np.random.rand() * (top - bottom + 1))""", """    return int(np.random.randint(bottom, top + 1))""")])
 add('c13-randbetween-half-open-draw', 'C13', 'break', [(MATH, """    return bottom + int(np.random.rand() * (top - bottom + 1))""", """    return int(np.random.randint(bottom, top))""")], expect='C13.randint')
 
+add('c09-import-fallback-parses-unescaped-text', 'C09', 'break', [(EXCEL, """            try:
+                cell = Cell(k, v, context=context, replace_missing_ref=ref)
+            except ValueError:""", """            kw = {'context': context, 'replace_missing_ref': ref}
+            if isinstance(v, str) and v.startswith('="=') and v.endswith('"'):
+                v = v[2:-1].replace('""', '"')
+                kw['check_formula'] = False
+            try:
+                cell = Cell(k, v, **kw)
+            except ValueError:""")], expect='C09.fallback')
+add('c09-benign-import-kwargs-in-a-dict', 'C09', 'benign', [(EXCEL, """            try:
+                cell = Cell(k, v, context=context, replace_missing_ref=ref)
+            except ValueError:""", """            kw = {'context': context, 'replace_missing_ref': ref}
+            try:
+                cell = Cell(k, v, **kw)
+            except ValueError:""")])
+
 if __name__ == '__main__':
     here = os.path.dirname(os.path.abspath(__file__))
     ids = [v['id'] for v in V]
